@@ -992,9 +992,12 @@ func (s *Store) monitorLeaseAsPrimary(ctx context.Context, lease Lease) error {
 			if err := lease.Renew(ctx); err == ErrLeaseExpired {
 				return err
 			} else if err != nil {
-				// If our next renewal will exceed TTL, exit now.
-				if time.Since(lease.RenewedAt())+timeout > lease.TTL() {
-					time.Sleep(timeout)
+				// If our next renewal will exceed TTL, hold the role for what is
+				// left of the TTL - no longer: the lease runs out then - and exit.
+				if remaining := lease.TTL() - time.Since(lease.RenewedAt()); remaining < timeout {
+					if remaining > 0 {
+						time.Sleep(remaining)
+					}
 					return ErrLeaseExpired
 				}
 
